@@ -62,6 +62,22 @@ unsafe impl<'gc> Collect<'gc> for Form<'gc> {
 }
 
 impl<'gc> Form<'gc> {
+    fn erased(f: Form<'gc>) -> Gc<'gc, ()> {
+        match f {
+            Form::Sized(g) => Gc::erase(g),
+            Form::SizedThin(g) => Gc::erase(g),
+            Form::Dyn(g) => Gc::erase(g),
+            Form::Arr(g) => Gc::erase(g),
+            Form::SliceU(g) => Gc::erase(g),
+            Form::Slice(g) => Gc::erase(g),
+            Form::SliceThin(g) => Gc::erase(g),
+            Form::SliceDef(g) => Gc::erase(g),
+            Form::Str(g) => Gc::erase(g),
+            Form::StrThin(g) => Gc::erase(g),
+            Form::StrDef(g) => Gc::erase(g),
+            Form::Erased(g) => g,
+        }
+    }
     fn addr(self) -> usize {
         match self {
             Form::Sized(g) => Gc::as_ptr(g) as usize,
@@ -257,6 +273,24 @@ fn chain_case(rep: &mut Rep, seed: u64, idx: u64, target: u8) {
                 return Err(format!("upgrade of a pointer to a live object failed after {:?}", trail));
             };
             trail.push(format!("{}->{}", opname, next.name()));
+            let peq = match (cur, next) {
+                (Form::Sized(a), Form::Sized(b)) => Gc::ptr_eq(a, b),
+                (Form::Dyn(a), Form::Dyn(b)) => Gc::ptr_eq(a, b) && GcWeak::ptr_eq(Gc::downgrade(a), Gc::downgrade(b)),
+                (Form::Arr(a), Form::Arr(b)) => Gc::ptr_eq(a, b),
+                (Form::SliceU(a), Form::SliceU(b)) => Gc::ptr_eq(a, b),
+                (Form::Slice(a), Form::Slice(b)) => Gc::ptr_eq(a, b),
+                (Form::SliceThin(a), Form::SliceThin(b)) => Gc::ptr_eq(a, b),
+                (Form::SliceDef(a), Form::SliceDef(b)) => Gc::ptr_eq(a, b),
+                (Form::Str(a), Form::Str(b)) => Gc::ptr_eq(a, b),
+                (Form::StrThin(a), Form::StrThin(b)) => Gc::ptr_eq(a, b),
+                (Form::StrDef(a), Form::StrDef(b)) => Gc::ptr_eq(a, b),
+                (Form::Erased(a), Form::Erased(b)) => Gc::ptr_eq(a, b),
+                (Form::SizedThin(a), Form::SizedThin(b)) => Gc::ptr_eq(a, b),
+                _ => Gc::ptr_eq(Form::erased(cur), Form::erased(next)),
+            };
+            if !peq {
+                return Err(format!("result of {:?} is not ptr_eq to its input", trail.last()));
+            }
             if next.addr() != addr0 {
                 return Err(format!("address changed from {:#x} to {:#x} by {:?}", addr0, next.addr(), trail));
             }
@@ -332,12 +366,22 @@ fn chain_case(rep: &mut Rep, seed: u64, idx: u64, target: u8) {
 // ---------------------------------------------------------------------------------------------
 // ZstCache
 
+pub trait Nm {
+    fn nm(&self) -> &'static str;
+}
+static_collect!(dyn Nm);
+
 macro_rules! zst {
     ($name:ident, $align:literal) => {
         #[repr(align($align))]
         #[derive(Default)]
         pub struct $name;
         static_collect!($name);
+        impl Nm for $name {
+            fn nm(&self) -> &'static str {
+                stringify!($name)
+            }
+        }
     };
 }
 zst!(Z1, 1);
@@ -403,6 +447,27 @@ where
         zst_one::<u32, M>(rep, &case, mc, root, "u32");
         zst_one::<(), M>(rep, &case, mc, root, "()");
         zst_one::<[u64; 0], M>(rep, &case, mc, root, "[u64;0]");
+        // two DIFFERENT zero-sized types that share the cached allocation, seen as trait objects:
+        // same allocation, different vtables -> ptr_eq must still hold (metadata is ignored)
+        {
+            let a = root.cache.alloc(mc, Z1);
+            let b = root.cache.alloc(mc, Z2);
+            let c = root.cache.alloc_static(mc, Z1);
+            let da: Gc<'_, dyn Nm> = unsize!(a => dyn Nm);
+            let db: Gc<'_, dyn Nm> = unsize!(b => dyn Nm);
+            let dc: Gc<'_, dyn Nm> = unsize!(c => dyn Nm);
+            rep.inc("dyn_ptr_eq_checks");
+            let same_ab = root.cache.is_cached(a) && root.cache.is_cached(b);
+            if same_ab && (!Gc::ptr_eq(da, db) || !GcWeak::ptr_eq(Gc::downgrade(da), Gc::downgrade(db))) {
+                rep.viol("M-convert", &case, "convert", "two trait-object pointers to the same (cached) allocation with different vtables are not ptr_eq".to_string());
+            }
+            if !Gc::ptr_eq(da, dc) && root.cache.is_cached(a) && root.cache.is_cached(c) {
+                rep.viol("M-convert", &case, "convert", "trait-object pointers to the same allocation are not ptr_eq".to_string());
+            }
+            if da.nm() != "Z1" || db.nm() != "Z2" {
+                rep.viol("M-convert", &case, "convert", "trait object of a cached ZST dispatches to the wrong type".to_string());
+            }
+        }
         if Gc::as_ptr(root.cache.cached_ptr()) as usize % M != 0 {
             rep.viol("M-convert", &case, "convert", format!("cached_ptr is not aligned to {}", M));
         }
